@@ -75,6 +75,10 @@ impl<'a> StateMachine<'a> {
     //@ fn src/handlers/hunk_header.rs StateMachine::test_hunk_header_line
     //@| ensures r == (is_prefix("@@"@, self.line@) && !(self.state is MergeConflict)),  // @C04,C14:a.hunk.header.is.a.line.that.starts.with.two.at.signs.outside.a.conflict.region
     //@ fn src/handlers/hunk_header.rs StateMachine::handle_hunk_header_line spec=hunk_header.handle_hunk_header_line
+    //@|     r == Ok::<bool, std::io::Error>(true) ==> hunk_dt(final(self).state) == (match old(self).state {
+    //@|         State::DiffHeader(DiffType::Combined(MergeParents::Unknown, InMergeConflict::No)) => DiffType::Combined(MergeParents::Number((leading_ats(old(self).line@) - 1) as usize), InMergeConflict::No),
+    //@|         State::DiffHeader(d) => d, State::HunkMinus(d, _) => d, State::HunkZero(d, _) => d, State::HunkPlus(d, _) => d,
+    //@|         _ => DiffType::Unified }),  // @C01,C05:the.hunks.of.a.combined.diff.have.one.marker.column.per.parent.one.less.than.the.at.signs.of.the.header.other.hunks.keep.the.diff.type.of.their.section
     //@before <<<let mut handled_line = false;>>>| proof { lemma_hunk_header_is_no_submodule_line(self.line@); }
     //@rewrite <<<self.line.chars().take_while(|c| c == &'@').count()>>> => <<<verif_count_leading_ats(&self.line)>>>
     //@rewrite <<<if let &[(_, minus_lines), (_, _plus_lines), ..] = parsed_hunk_header.line_numbers_and_hunk_lengths.as_slice() {>>> => <<<if parsed_hunk_header.line_numbers_and_hunk_lengths.len() >= 2 { let minus_lines = parsed_hunk_header.line_numbers_and_hunk_lengths[0].1;>>>
